@@ -45,6 +45,13 @@ Audit additions (classes of inputs inside the quantifier that were not generated
   evaluated in exact rationals on the trace samples (skipped when a sample is within rounding of the mean); the series is left as it
   was.  A third of the cases also put the trace samples to the Rat model (pk.max / pk.min).  A combination of options that
   `TimeSeries.get` itself rejects is counted and skipped.
+* LONG signals (stream `long`, kind "long"): 999 .. 131073 samples (just below / at / above 1000, 1024, 4096, 10000, beyond 65536),
+  rebuilt from a few parameters (size, shape, seed, events): zigzags (n/2 excursions), quantised noise, waves with ripples, slow
+  oscillations whose excursions span thousands of samples; the largest peak / trough, plateau peaks and equal twin peaks in the
+  first / last samples, exactly at multiples of 1000 / 1024 / 4096 / 10000 / 65536 and across them; half-integer samples in several
+  units and offsets (exact).  Through find_maxima, TimeSeries.maxima / minima (rettime, window shaving up to 3 end samples),
+  local and global, with thresholds: values at positions, times at positions, ascending, the exact integer reference, threshold
+  only removes, local contains global, affine map by 2**p.
 * every call of the implementation is wrapped: an exception is a failing clause (or a disagreement for `average_frequency`,
   which is tied to the model only: `up` on/off, non-uniform times, `TimeSeries.average_frequency/average_period`).
 
@@ -432,6 +439,209 @@ def eval_float(c):
     except Exception as e:                                  # noqa
         fails.append((NOEXC, [(float(a), b) for a, b in ref], "err:%s:%s" % (type(e).__name__, str(e)[:80])))
         return None, amb, fails
+
+
+# ---- LONG signals described by a few parameters (size- and position-conditioned code paths) ------------------------------------------
+LONG_GROUPS = ((999, 1000, 1001, 1023, 1024, 1025), (4095, 4096, 4097), (9999, 10000, 10001), (65537, 70001, 131073))
+LONG_SHAPES = ("zigzag", "noise", "waves", "slow")
+LONG_BIG = 4096.0
+L_REF = "%s %s of a long signal are exactly the %s (exact integer reference on the samples)"
+L_THR = "a threshold only removes values below it (long signal: the same query without threshold, values >= threshold kept)"
+L_CONTAIN = "local maxima contain every global maximum (long signal)"
+
+
+def long_boundaries(n):
+    bs = set()
+    for b in (1000, 1024, 4096, 10000, 65536):
+        bs.update(range(b, n - 3, b))
+    return sorted(bs)
+
+
+def long_signal(p):
+    """signal of a `long` case, rebuilt from its parameters: multiples of 1/2 of small magnitude (sum, mean comparison and every
+    difference exact), body from numpy's seeded generator, then the events written over it:
+      spike  x[pos] = +BIG                      the largest maximum exactly at pos (first / last samples, block boundaries)
+      dip    x[pos] = -BIG                      the same for minima
+      flat   x[pos-1] = x[pos] = x[pos+1] = BIG/2   a plateau peak across pos (local: its LAST sample is the peak; global: its first)
+      twin   x[pos-1] = x[pos+1] = BIG/4, x[pos] = BIG/4 - 1   two equal peaks of one excursion on either side of pos
+      level  x[pos] = the value nearest to the mean from above ... (not used: the mean moves with every event)"""
+    n, shape = int(p["n"]), p["shape"]
+    g = np.random.default_rng(int(p["seed"]))
+    i = np.arange(n)
+    if shape == "zigzag":                       # every second sample is an excursion of its own: n/2 global maxima
+        x = np.where(i % 2 == 0, 1.0, -1.0) * g.integers(1, 40, n) * 0.5
+    elif shape == "noise":                      # quantised noise: plateaus, ties, short excursions
+        x = np.round(g.normal(0, 3, n))
+    elif shape == "waves":                      # excursions of some tens of samples with ripples on them
+        per = float(p.get("period", 48))
+        x = np.round(8 * np.sin(2 * np.pi * i / per + 0.3) + g.normal(0, 1.5, n)) * 0.5
+    else:                                       # slow: few crossings, excursions thousands of samples long (spanning blocks)
+        per = n / float(p.get("cycles", 2.5))
+        x = np.round(40 * np.sin(2 * np.pi * i / per + float(p.get("phase", 0.0))) + g.normal(0, 0.6, n)) * 0.5
+    for kind, pos in p.get("events", ()):
+        pos = int(pos) % n
+        if kind == "spike":
+            x[pos] = LONG_BIG
+        elif kind == "dip":
+            x[pos] = -LONG_BIG
+        elif kind == "flat" and 1 <= pos < n - 1:
+            x[pos - 1:pos + 2] = LONG_BIG / 2
+        elif kind == "twin" and 1 <= pos < n - 1:
+            x[pos - 1:pos + 2] = [LONG_BIG / 4, LONG_BIG / 4 - 1, LONG_BIG / 4]
+    return x * 2.0 ** int(p.get("unit", 0)) + float(p.get("offset", 0.0)) * 2.0 ** int(p.get("unit", 0))
+
+
+def lref_maxima(xw, local, thr, grid):
+    """exact reference on a window of the long signal: sorted (value, position).  The samples are multiples of `grid` (a power of
+    two): compared as integers X = x / grid; above the mean <=> n*X > sum(X) in integer arithmetic."""
+    xw = np.asarray(xw, dtype=float)
+    n = xw.size
+    if n == 0:
+        return []
+    X = xw / grid
+    if not np.all(X == np.round(X)) or np.abs(X).max() * n >= 2.0 ** 62:
+        raise ValueError("long signal not on an integer grid")
+    Xi = X.astype(np.int64)
+    tot = int(Xi.sum())
+    if local:
+        idx = 1 + np.nonzero((X[:-2] <= X[1:-1]) & (X[2:] < X[1:-1]))[0] if n >= 3 else np.array([], dtype=int)
+    else:
+        above = Xi * n > tot
+        edges = np.flatnonzero(np.diff(above.astype(np.int8)))       # last index of every run but the final one
+        starts = np.concatenate(([0], edges + 1))
+        ends = np.concatenate((edges, [n - 1]))
+        idx = []
+        for a, b in zip(starts, ends):
+            if above[a] and a >= 1 and b + 1 < n:
+                idx.append(int(a) + int(np.argmax(X[a:b + 1])))       # first position of the largest value
+        idx = np.array(idx, dtype=int)
+    out = sorted((float(xw[k]), int(k)) for k in idx)
+    return [r for r in out if thr is None or r[0] >= thr]
+
+
+def long_threshold(p, x):
+    k = p.get("thr")
+    if k is None:
+        return None
+    if k == "value":                            # a value of the signal itself (exact tie with some maxima)
+        return float(np.sort(x)[int(0.8 * (x.size - 1))])
+    if k == "big":
+        return float(x.max())
+    return float(np.sort(x)[x.size // 2]) + 0.25 * 2.0 ** int(p.get("unit", 0))
+
+
+def gen_long(chk):
+    rng = chk.rng
+    if chk.quick:
+        sizes = [rng.choice(gp) for gp in LONG_GROUPS]
+        sizes[3] = rng.choice([65537, 70001])
+        shapes = [rng.choice(LONG_SHAPES) for _ in sizes]
+        shapes[rng.randrange(3)] = "slow"
+        shapes[3] = rng.choice(["zigzag", "noise"])
+    else:
+        sizes = [n for gp in LONG_GROUPS for n in gp] * 3
+        shapes = [LONG_SHAPES[k % 4] for k in range(len(sizes))]
+        rng.shuffle(shapes)
+    for k, (n, shape) in enumerate(zip(sizes, shapes)):
+        bs = long_boundaries(n)
+        ends = [1, 2, n - 3, n - 2]
+        at_b = [b + d for b in bs for d in (-1, 0, 1)] or ends
+        ev = [[rng.choice(["spike", "dip"]), rng.choice(ends if k % 2 == 0 else at_b)]]
+        ev.append([rng.choice(["spike", "dip"]), rng.choice(at_b + [0, n - 1])])
+        for _ in range(rng.randint(1, 3)):
+            ev.append([rng.choice(["flat", "twin"]), rng.choice(at_b + [1, n - 2])])
+        via = rng.choice(["find_maxima", "find_maxima", "maxima", "minima"])
+        cut = via != "find_maxima" and rng.random() < 0.5
+        yield dict(kind="long", n=n, shape=shape, seed=rng.getrandbits(40), events=ev, unit=rng.choice([0, 0, -3, 10, 40]),
+                   offset=rng.choice([0.0, 0.0, 256.0, -1024.0]), cycles=rng.choice([0.7, 1.5, 2.5, 6.5]),
+                   phase=rng.choice([0.0, 1.0, 3.0, 4.5]), period=rng.choice([24, 48, 100]), via=via,
+                   thr=rng.choice([None, "value", "mid", "big"]), win=[rng.randint(0, 3), n - 1 - rng.randint(0, 3)] if cut else None,
+                   dt=rng.choice([0.5, 1.0, 0.125]), p=rng.choice([-60, -3, 1, 10, 52]))
+
+
+def eval_long(c):
+    """every clause of the property on one long signal: [(oracle, expected, observed)], number of maxima found"""
+    from qats.signal import find_maxima
+    from qats import TimeSeries
+    fails = []
+
+    def short(pairs):
+        return "%d maxima: %s ... %s" % (len(pairs), pairs[:4], pairs[-4:])
+
+    def differ(a, b):
+        k = next((i for i, (u, v) in enumerate(zip(a, b)) if u != v), min(len(a), len(b)))
+        return "%d (value, position) pairs, from #%d: %s" % (len(a), k, a[k:k + 5]), "%d pairs, from #%d: %s" % (len(b), k, b[k:k + 5])
+    count, plain = 0, {}
+    try:
+        x = long_signal(c)
+        n = x.size
+        t = 3.0 + np.arange(n) * float(c["dt"])
+        via = c["via"]
+        lo, hi = c["win"] if c.get("win") else (0, n - 1)
+        xw = x[lo:hi + 1]
+        sgn = -1.0 if via == "minima" else 1.0
+        thr = long_threshold(c, sgn * xw)             # (a threshold in the orientation of the maxima of sgn*x)
+        for loc in (False, True):
+            ref = lref_maxima(sgn * xw, loc, None, 0.5 * 2.0 ** int(c.get("unit", 0)))
+            refs = {None: ref, thr: [r for r in ref if thr is None or r[0] >= thr]}
+            res = {}
+            for th in ([None] if thr is None else [None, thr]):
+                if via == "find_maxima":
+                    m, ind = find_maxima(xw.copy(), local=loc, threshold=th)
+                    m, ind = np.asarray(m, dtype=float), np.asarray(ind)
+                    tm = t[lo:hi + 1][ind] if ind.size else np.array([])
+                else:
+                    ts = TimeSeries("s", t.copy(), x.copy())
+                    m, tm = getattr(ts, via)(twin=(float(t[lo]), float(t[hi])) if c.get("win") else None, local=loc,
+                                             threshold=None if th is None else sgn * th, rettime=True)
+                    m, tm = sgn * np.asarray(m, dtype=float), np.asarray(tm, dtype=float)
+                    ind = np.round((tm - t[lo]) / float(c["dt"])).astype(int) if tm.size else np.array([], dtype=int)
+                what = ("local" if loc else "global", "minima (mirrored)" if via == "minima" else "maxima",
+                        "interior peaks" if loc else "first-position peaks of the closed excursions above the mean")
+                if m.shape != ind.shape or m.ndim != 1 or (ind.size and (ind.min() < 0 or ind.max() >= xw.size)):
+                    fails.append((FL_VAL, "positions inside the signal", "shapes %s %s" % (m.shape, ind.shape)))
+                    continue
+                if ind.size and (np.any(sgn * xw[ind] != m) or np.any(t[lo:hi + 1][ind] != tm)):
+                    k = int(np.flatnonzero((sgn * xw[ind] != m) | (t[lo:hi + 1][ind] != tm))[0])
+                    fails.append((FL_VAL, "x[ind], t[ind] (first difference at result #%d, position %d)" % (k, int(ind[k])),
+                                  [float(m[k]), float(tm[k]), float(sgn * xw[ind[k]]), float(t[lo + ind[k]])]))
+                if np.any(np.diff(m) < 0):
+                    fails.append((H_ASC, "ascending", "descent at result #%d of %d" % (int(np.flatnonzero(np.diff(m) < 0)[0]), m.size)))
+                got = sorted(zip(m.tolist(), (int(v) for v in ind)))
+                res[th] = got
+                count += len(got)
+                if got != refs[th]:
+                    fails.append(((L_REF % what) + ("" if th is None else " [threshold %r]" % th),) + differ(refs[th], got))
+            if thr is not None and None in res and thr in res and res[thr] != [r for r in res[None] if r[0] >= thr]:
+                fails.append((L_THR,) + differ([r for r in res[None] if r[0] >= thr], res[thr]))
+            plain[loc] = res.get(None)
+        rg, rl = plain.get(False), plain.get(True)
+        if rg is not None and rl is not None:
+            # (a global maximum on a plateau is reported at the plateau's first sample, the local one at its last: same peak)
+            sl, xs, miss = set(rl), sgn * xw, []
+            for v, k in rg:
+                k2 = k
+                while k2 + 1 < xs.size and xs[k2 + 1] == v:
+                    k2 += 1
+                if (v, k2) not in sl:
+                    miss.append((v, k))
+            if miss:
+                fails.append((L_CONTAIN, "every global maximum is a local maximum (at the last sample of its plateau)",
+                              "%d global maxima missing among the local ones: %s" % (len(miss), miss[:5])))
+        # positive affine map (exact: power of two, shift a multiple of the unit) keeps the positions
+        u = 2.0 ** int(c["p"])
+        bsh = 64.0 * 2.0 ** int(c.get("unit", 0)) * u
+        for loc, r0 in ((False, rg), (True, rl)):
+            if r0 is None:
+                continue
+            m2, i2 = find_maxima(sgn * xw * u + bsh, local=loc)
+            got2 = sorted(zip(np.asarray(m2, dtype=float).tolist(), (int(v) for v in i2)))
+            exp2 = sorted((v * u + bsh, k) for v, k in r0)
+            if got2 != exp2:
+                fails.append((AFFINE + " [long signal, a=2**%d]" % c["p"],) + differ(exp2, got2))
+    except Exception as e:                                  # noqa
+        fails.append((NOEXC, "maxima of a long signal", "err:%s:%s" % (type(e).__name__, str(e)[:120])))
+    return fails, count
 
 
 # ---- processed signals: peaks queried together with a filter / resampling / smoothing / tapering ------------------------------------
@@ -1374,6 +1584,15 @@ def run(chk):
             chk.disagree("pk.float", c, [(float(a), b) for a, b in mod], [(float(a), b) for a, b in got])
         if got:
             chk.nontriv(("float", tuple(c["x"]), c["via"], c["local"], c["threshold"], repr(c["twin"])))
+    # ---- long signals (sizes around 1000 / 1024 / 4096 / 10000 and beyond 65536; events at the ends and at block boundaries) ----
+    for c in [c for c in corpus if c.get("kind") == "long"] + list(gen_long(chk)):
+        fails, found = eval_long(c)
+        chk.count("long")
+        chk.dist("long:%s:n=%d:%s" % (c["via"], c["n"], c["shape"]))
+        for oracle, e, ob in fails:
+            chk.fail(oracle, c, e, ob)
+        if found:
+            chk.nontriv(("long", c["n"], c["shape"], c["seed"], c["via"]))
     # ---- series-level entry points and affine map -------------------------------------------------------------------------------
     sub = rng.sample(cases, min(len(cases), 400 if chk.quick else 4000))
     for x in sub:
@@ -1446,6 +1665,14 @@ def replay(rp):
                                                   if k not in ("via", "twin", "opts")}, shown))
         for oracle, step, e, o in fails:
             print("FAILS at step %d: %s\n   expected %s\n   observed %s" % (step, oracle, e, o))
+        print("replay: %d failing clause(s)" % len(fails))
+        return 1 if fails else 0
+    if inp.get("kind") == "long":
+        fails, found = eval_long(inp)
+        print("long signal: %d samples, %s, via %s, events %s, window %s: %d maxima reported in all queries" % (
+            inp["n"], inp["shape"], inp["via"], inp["events"], inp.get("win"), found))
+        for oracle, e, o in fails:
+            print("FAILS: %s\n   expected %s\n   observed %s" % (oracle, e, o))
         print("replay: %d failing clause(s)" % len(fails))
         return 1 if fails else 0
     if inp.get("kind") == "float":
